@@ -16,6 +16,8 @@ from symx.harness import SNP, conn_from_cex, pin, py_path, stubs_description, sy
 from symx.oracles import Lattice
 from symx.snp import SArr, make_module
 
+from props import alias_common as _alias
+
 ID = "C13"
 
 
@@ -948,6 +950,7 @@ def jobs(tier, seed):
         for sol in _simple_paths(r, c, 5 if (r, c) != (2, 2) else 4, seed + r * 10 + c, 4 if q else 12):
             for aie in (False, True):
                 out.append(dict(h="forks", r=r, c=c, sol=[list(p) for p in sol], always=aie))
+    out.append(dict(_alias.ALIAS_JOB))  # results must not alias library state, arguments or each other (props/alias_common.py)
     out[0]["twin"] = True
     return out
 
@@ -968,6 +971,7 @@ HARNESSES = {
     "get_nodes": dict(run=_run_get_nodes, replay=_replay_get_nodes),
     "forks": dict(run=_run_forks, replay=_replay_forks, real_sig=_sig_forks, pinned=_pinned_forks),
 }
+HARNESSES["alias"] = _alias.alias_harness("C13")
 
 META = dict(
     functions=["LatticeMaze.nodes_connected", "LatticeMaze.is_valid_path", "LatticeMaze.coord_degrees", "LatticeMaze.get_coord_neighbors",
@@ -990,3 +994,5 @@ META = dict(
              "from_adj_list on entries that are not lattice edges but share one coordinate (accepted by the code, not covered by the property)"],
     assumptions=["representation invariant on input mazes", "manhattan_distance: distances <= 127 (int8 result)"],
 )
+
+META.setdefault("degenerate", {})["alias"] = _alias.ALIAS_META
